@@ -57,10 +57,10 @@ META = {
 def run(ctx):
     obs = ctx.obs
     obs.extra['meta'] = META
-    for case, rng in ctx.cases(ctx.n(700, 30000), stream='plain'):
+    for case, rng in ctx.cases(ctx.n(700, 90000), stream='plain'):
         spec = {'case': case, 'stream': 'plain'}
         ctx.run_case(spec, plain_case, obs, rng, spec)
-    for case, rng in ctx.cases(ctx.n(160, 6000), stream='ems'):
+    for case, rng in ctx.cases(ctx.n(160, 18000), stream='ems'):
         conv = EMS_CONVS[case % len(EMS_CONVS)]
         spec = {'case': case, 'stream': 'ems', 'convention': conv}
         ctx.run_case(spec, ems_case, obs, rng, conv, spec)
